@@ -7,6 +7,7 @@ CONSTANTS
   Kv <- None
   Changes = {c1}
   MaxPend = 1
+  NoSpace <- None
   Dev <- None
   Budget <- Bp3
 SYMMETRY Sym
@@ -19,4 +20,6 @@ INVARIANT NoJobsWithoutDiff
 INVARIANT CleanRoundConverges
 PROPERTY TombstoneKept
 PROPERTY EqualHashMeansNoTraffic
+PROPERTY FailureIsolated
+PROPERTY PushGivesSpace
 CHECK_DEADLOCK FALSE
